@@ -210,6 +210,11 @@ func fail(v any) error {
 }
 
 func multiErrorFn(excs ...Exception) error {
+	for _, exc := range excs {
+		if exc == nil {
+			return errs.BadValue{What: "exception", Valid: "exception", Actual: "$nil"}
+		}
+	}
 	return PipelineError{excs}
 }
 
